@@ -194,7 +194,7 @@ class OptimizedChoice(Expression):
 
     def copy(self, *choices: ChoiceChoice) -> OptimizedChoice:
         """Return a new LazyChoiceRegex with current and additional choices."""
-        return OptimizedChoice(self.choices).update(*choices)
+        return OptimizedChoice(list(self.choices)).update(*choices)
 
     def build_optimized_pattern(self) -> str:
         """Return a regex pattern matching all collected choices."""
